@@ -26,7 +26,7 @@ RULE = ("one run = a generated valid document; each record checked valid, then 1
         "distinct = distinct mutated record texts with a definite verdict; NOT an exhaustive enumeration")
 PROBES = ["valid_record_accepted", "mutation_invalid", "mutation_still_valid", "mutation_unspecified",
           "doc_undefined_identifier", "doc_dollar_mismatch", "doc_ln_mismatch", "doc_path_overlap_count",
-          "doc_begin_gt_end", "doc_rgfa", "doc_hdr_types"]
+          "doc_begin_gt_end", "doc_rgfa", "doc_hdr_types", "doc_rgfa_link_tag", "doc_frag_dollar"]
 ASSUMPTIONS = ["sim/recognise.py transcribes the GFA1/GFA2 grammars; cases where the specifications are silent are "
                "skipped (verdict 'unspec')",
                "bounded-exhaustive enumeration per datatype is NOT performed (out of the technique's family)"]
@@ -47,7 +47,7 @@ def gen(streams, tier, i):
         ln = fr.choice(cand)
         kind, new = corrupt(fr, ln)
         ops.append({"op": "mutate", "orig": ln, "line": new, "kind": kind})
-    docfault = fr.choice(["undefined", "dollar", "ln", "path_count", "begin_gt_end", "rgfa", "hdr_types", None])
+    docfault = fr.choice(["undefined", "dollar", "ln", "path_count", "begin_gt_end", "rgfa", "hdr_types", "rgfa_link_tag", "frag_dollar", None])
     ops.append({"op": "docfault", "kind": docfault, "pick": fr.randrange(1000)})
     return {"cfg": {"version": doc["version"]}, "lines": lines, "ops": ops}
 
@@ -231,6 +231,54 @@ def docfault(scn, m, op, st):
                                          "vlevel %d: %r and %r are accepted, the Gfa is written with an INVALID marker" %
                                          (lvl, a, b), rule=kind)
         return
+    elif kind == "rgfa_link_tag":
+        # a document of the rGFA dialect which is right (stable names and offsets on the segments, blunt links,
+        # nothing else) except that one optional link tag with a prescribed datatype (SR, L1, L2: i) has another
+        n = 2 + pick % 3
+        lines = ["S\tr%d\t%s\tSN:Z:chr%d\tSO:i:%d\tSR:i:%d" % (j, ["*\tLN:i:7", "ACGTA"][(pick >> j) & 1], j % 2, 10 * j, j % 2)
+                 for j in range(n)]
+        good = ["SR:i:0", "L1:i:3", "L2:i:4"]
+        bad = ["SR:Z:0", "L1:f:3.0", "L2:B:C,2", "SR:A:x", "L1:Z:12", "L2:J:2", "SR:f:1.0", "L2:H:1F", "L1:B:i,3"][(pick // 3) % 9]
+        keep = [t for t in good if t[:2] != bad[:2] and (pick >> (3 + good.index(t))) & 1]
+        tags = keep + [bad] if pick % 2 else [bad] + keep
+        for j in range(n - 1):
+            lines.append("L\tr%d\t+\tr%d\t%s\t0M" % (j, j + 1, "+-"[(pick >> j) & 1]) +
+                         ("\t" + "\t".join(tags) if j == (pick // 7) % (n - 1) else "\tSR:i:1" if j % 2 else ""))
+        dialect = "rgfa"
+        # the same document with the tag of the right datatype is accepted (otherwise the refusal says nothing)
+        okl = [ln.replace(bad, [t for t in good if t[:2] == bad[:2]][0]) for ln in lines]
+        o = World(st).construct("list", okl, vlevel=1, dialect="rgfa")
+        if not (o.ok and core.call(o.value.validate).ok):
+            st.count("probe.doc_rgfa_base_refused")
+            return
+    elif kind == "frag_dollar":
+        # GFA2: a fragment on a segment with a real sequence where a segment-side position carries a '$' without
+        # being the last position of the segment
+        if version != "gfa2":
+            return
+        segs = [l.split("\t") for l in lines if l.startswith("S\t") and l.split("\t")[3] != "*" and
+                l.split("\t")[2].isdigit() and int(l.split("\t")[2]) == len(l.split("\t")[3]) and len(l.split("\t")[3]) >= 2]
+        if not segs:
+            return
+        s = segs[pick % len(segs)]
+        n = len(s[3])
+        k = (pick // 5) % n                      # 0 <= k < n
+        var = (pick // 3) % 3
+        if var == 0:
+            sb, se = "%d$" % k, "%d$" % n        # both carry a $, only the end is the last position
+        elif var == 1:
+            sb, se = str(k // 2), "%d$" % max(k, 1) if max(k, 1) < n else "%d$" % (n - 1)
+        else:
+            sb, se = "%d$" % k, "%d$" % k if k else "0$"
+        f = "F\t%s\tzzread%s\t%s\t%s\t0\t%d\t*" % (s[1], "+-"[pick % 2], sb, se, 1 + pick % 9)
+        at = pick % (len(lines) + 1)
+        lines = lines[:at] + [f] + lines[at:]
+        # the same fragment with a position without '$' is accepted
+        okf = "F\t%s\tzzread%s\t%d\t%d$\t0\t%d\t*" % (s[1], "+-"[pick % 2], k, n, 1 + pick % 9)
+        o = World(st).construct("list", lines[:at] + [okf] + lines[at + 1:], vlevel=1)
+        if not (o.ok and core.call(o.value.validate).ok):
+            st.count("probe.doc_frag_base_refused")
+            return
     elif kind == "rgfa":
         if version != "gfa1":
             return
@@ -238,7 +286,8 @@ def docfault(scn, m, op, st):
         if not any(ln.split("\t")[0] in ("S", "H", "P", "C") for ln in lines):
             return
     probe = {"undefined": "doc_undefined_identifier", "dollar": "doc_dollar_mismatch", "ln": "doc_ln_mismatch",
-             "path_count": "doc_path_overlap_count", "begin_gt_end": "doc_begin_gt_end", "rgfa": "doc_rgfa"}[kind]
+             "path_count": "doc_path_overlap_count", "begin_gt_end": "doc_begin_gt_end", "rgfa": "doc_rgfa",
+             "rgfa_link_tag": "doc_rgfa_link_tag", "frag_dollar": "doc_frag_dollar"}[kind]
     st.count("probe." + probe)
     st.count("fault.doc_" + kind)
     for lvl in (1, 2, 3):
